@@ -118,7 +118,7 @@ def make_config(rng: random.Random):
         cy, cx = max(cy, 16), max(cx, 16)
     band_chunk = rng.choice([1, ns])
     nodata = rng.choice([None, None, 0, 255 if dtype == "uint8" else 100 if dtype == "int8" else 9999 if dtype in ("uint16", "uint32") else -9999])
-    bs = rng.choice([[16], [32], [32, 16], [(48, 16), 16], [20], [64, 32], [(32, 64)], None])
+    bs = rng.choice([[16], [32], [32, 16], [(48, 16), 16], [20], [64, 32], [(32, 64)], None, [64, 16], [128, 16]])  # the last two: few large main tiles, many small overview tiles
     comp = rng.choice(["deflate", "zstd", "lzw", "none"])
     cfg = dict(ny=ny, nx=nx, layout=layout, ns=ns, dtype=dtype, chunks=[cy, cx], band_chunk=band_chunk, nodata=nodata, blocksize=bs, compression=comp,
                predictor=rng.choice([None, None, True, False]) if comp != "none" else rng.choice([None, False]), spill_sz=rng.choice([0, 1 << 10, 1 << 16, None]), writes_per_chunk=rng.choice([None, 1, 2, 3]),
@@ -387,6 +387,9 @@ CONFIG_WATCHDOG_S = 300
 WRITE_BOUND = 2_000_000
 
 PINNED = [
+    # fewer full-resolution tiles than overview tiles (sub-stream grouping by size instead of by level would put full-resolution data first: C05-3)
+    dict(ny=256, nx=256, layout="YX", ns=1, dtype="uint8", chunks=[128, 128], band_chunk=1, nodata=None, blocksize=[128, 32], compression="deflate", predictor=None, spill_sz=None, writes_per_chunk=None, stats=True, bigtiff=True, scheduler="sync", workers=2, order_seed=19, data_seed=19, crs="EPSG:3857"),
+    dict(ny=200, nx=150, layout="SYX", ns=2, dtype="int16", chunks=[64, 64], band_chunk=1, nodata=None, blocksize=[128, 16], compression="zstd", predictor=None, spill_sz=4096, writes_per_chunk=2, stats=False, bigtiff=True, scheduler="threads", workers=4, order_seed=20, data_seed=20, crs="EPSG:32633"),
     # uncompressed x a level that is exactly one tile (D32: tifffile's contiguous shortcut consumed the endless empty-tile iterator)
     dict(ny=16, nx=16, layout="YX", ns=1, dtype="uint8", chunks=[16, 16], band_chunk=1, nodata=None, blocksize=[16], compression="none", predictor=None, spill_sz=None, writes_per_chunk=None, stats=True, bigtiff=True, scheduler="sync", workers=2, order_seed=16, data_seed=16, crs="EPSG:3857"),
     dict(ny=128, nx=128, layout="SYX", ns=2, dtype="int16", chunks=[64, 64], band_chunk=1, nodata=-9999, blocksize=[64], compression="none", predictor=False, spill_sz=1024, writes_per_chunk=2, stats=False, bigtiff=False, scheduler="threads", workers=4, order_seed=17, data_seed=17, crs="EPSG:32633"),
